@@ -41,7 +41,7 @@ def judge(case, impl, model):
     tw = impl['twin']
     pfail = None
     claimed = pedantic and s['allConforming'] and s['keywordCall'] and C.twin_accepts(impl) and case['c']['fn']['flavour'] != 'generator' \
-        and 'nonPlain' not in model['regions'] and not s['incompleteParam'] and not s['incompleteReturn']
+        and 'nonPlain' not in model['regions'] and 'fwdUnresolved' not in model['regions'] and not s['incompleteParam'] and not s['incompleteReturn']
     if claimed:
         if out != tw['out']:
             pfail = f'decorated call ends in {impl["out"]}, the undecorated twin in {tw["out"]} - {C.describe_case(case)}'
